@@ -207,7 +207,7 @@ func lexRunBatch(c *Ctx, sp *lexCheckSpec, r *rng.R, b *run.Batch, cases []*LCas
 				why = sp.extra(c, lc, in, ref, obs)
 			}
 			if why == "" {
-				if k == 0 && i%6 == 0 {
+				if c.Ev.WantSample() && len(pl.inputs) > 0 {
 					c.Ev.Sample(map[string]any{"lox": lc.Lox, "input": fmt.Sprintf("%q", pl.inputs[len(pl.inputs)/2]), "tokens": showObsToks(res.Runs[len(pl.inputs)/2].Toks, 12)})
 				}
 				continue
